@@ -159,6 +159,9 @@ pub struct Ctx<'a> {
     pub sc: &'a Scenario,
     pub obs: &'a Observation,
     pub facts: &'a Facts,
+    /// the process ran next to another scrut process on the same temporary root: what is on
+    /// disk is judged for the pair, not per process
+    pub duo: bool,
 }
 
 impl<'a> Ctx<'a> {
@@ -1379,8 +1382,16 @@ pub fn strip_sgr(b: &[u8]) -> Vec<u8> {
 
 /// Evaluate every oracle that applies to this tier; the caller filters by property.
 pub fn judge(sc: &Scenario, obs: &Observation) -> (Vec<Violation>, Facts, Vec<DocJudgement>) {
+    let (mut out, facts, judgements) = judge_one(sc, obs, obs.duo.is_some());
+    if let (Some(duo), Some(partner)) = (&obs.duo, &sc.partner) {
+        crate::oracle_run::check_duo(sc, partner, obs, duo, &facts, &mut out);
+    }
+    (out, facts, judgements)
+}
+
+pub fn judge_one(sc: &Scenario, obs: &Observation, duo: bool) -> (Vec<Violation>, Facts, Vec<DocJudgement>) {
     let facts = extract(sc, &obs.log);
-    let ctx = Ctx { sc, obs, facts: &facts };
+    let ctx = Ctx { sc, obs, facts: &facts, duo };
     let mut out = vec![];
     let judgements = ctx.check_reports(&mut out);
     if let Some(p) = &obs.panic {
